@@ -13,6 +13,7 @@ from sim import jobs as J
 from sim import simtasks
 
 NAME = "ctl"
+WALL_SPIN_S = 20.0
 
 
 class Violation(Exception):
@@ -23,6 +24,11 @@ class Violation(Exception):
 
 class Spin(BaseException):
     pass
+
+
+class ClusterFailure(Exception):
+    """What the real Bridge raises out of recv_events when an executor reports a failure (e.g. a DatasetTransmitFailure
+    because a commanded transfer / fetch found its dataset gone)."""
 
 
 class TaskFailed(Exception):
@@ -96,6 +102,12 @@ class ModelBridge:
         self.delivered_order = collections.defaultdict(list)   # task -> outputs in the order delivered to the controller
         self.inverted_tasks = set()
         self.swapped = False
+        self.deferred = []
+        self.failure = None
+
+    def defer(self, prop, cls, detail, **sig):
+        if not any(d[0] == prop and d[1] == cls for d in self.deferred):
+            self.deferred.append((prop, cls, detail, sig))
 
     def _rec(self, *rec):
         self.log.append(rec)
@@ -151,7 +163,9 @@ class ModelBridge:
             raise Violation("C04", "transmit_unknown_host", (repr(ds), source, target))
         if ds not in self.store[source]:
             cls = "transmit_from_purged_host" if ds in self.purged[source] else "transmit_from_host_without_dataset"
-            raise Violation("C04", cls, (repr(ds), source, target))
+            self.defer("C04", cls, (repr(ds), source, target))
+            self.failure = f"DatasetTransmitFailure: transmit of {ds!r} from {source}"
+            return
         if ds in self.store[target]:
             self.probes["redundant_transfer"] += 1
         self.pending.append(("tx", self.idx, ds, source, target))
@@ -164,7 +178,9 @@ class ModelBridge:
             raise Violation("C04", "fetch_unknown_host", (repr(ds), source))
         if ds not in self.store[source]:
             cls = "fetch_from_purged_host" if ds in self.purged[source] else "fetch_from_host_without_dataset"
-            raise Violation("C04", cls, (repr(ds), source))
+            self.defer("C04", cls, (repr(ds), source))
+            self.failure = f"DatasetTransmitFailure: fetch of {ds!r} from {source}"
+            return
         if any(p[0] == "fetch" and p[2] == ds for p in self.pending) or ds in self.delivered_payload:
             self.probes["repeated_fetch"] += 1
         self.pending.append(("fetch", self.idx, ds, source))
@@ -174,14 +190,17 @@ class ModelBridge:
         self._cmd("purge", host, repr(ds))
         if host not in self.store:
             raise Violation("C04", "purge_unknown_host", (repr(ds), host))
+        # violations of the purge contract are recorded and the purge is applied, as the real executors would: what follows
+        # (a transfer or fetch that finds its dataset gone, a requested output that can no longer be delivered) is the
+        # consequence C01 / C03 see
         for t in sorted(self.consumers[ds]):
             if t not in self.finished:
-                raise Violation("C04", "purge_while_consumer_unfinished", (repr(ds), host, t), inverted=bool(self.inverted_tasks))
+                self.defer("C04", "purge_while_consumer_unfinished", (repr(ds), host, t), inverted=bool(self.inverted_tasks))
         if ds in self.job.ext_outputs and ds not in self.delivered_payload:
-            raise Violation("C04", "purge_before_output_reached_caller", (repr(ds), host))
+            self.defer("C04", "purge_before_output_reached_caller", (repr(ds), host))
         for p in self.pending:
             if p[2] == ds and p[3] == host:
-                raise Violation("C04", f"purge_while_{p[0]}_from_host_pending", (repr(ds), host, p[1]), kind=p[0])
+                self.defer("C04", f"purge_while_{p[0]}_from_host_pending", (repr(ds), host, p[1]), kind=p[0])
             if p[0] == "tx" and p[2] == ds and p[4] == host:
                 self.probes["purge_at_pending_target"] += 1
         if ds not in self.store[host]:
@@ -206,7 +225,9 @@ class ModelBridge:
             if p[2] in self.store[p[3]]:
                 acts.append(p)
             else:
-                raise Violation("C04", "pending_source_lost_dataset", (p[0], p[1], repr(p[2]), p[3]))
+                # the source's data server can no longer serve the command: it reports a DatasetTransmitFailure
+                self.defer("C04", "pending_source_lost_dataset", (p[0], p[1], repr(p[2]), p[3]))
+                raise ClusterFailure(f"DatasetTransmitFailure: {p[0]} {p[1]} of {p[2]!r} from {p[3]}")
         return acts
 
     def _do(self, act):
@@ -277,6 +298,8 @@ class ModelBridge:
         self.n_recv += 1
         if self.shutdown_calls:
             raise Violation("C03", "recv_after_shutdown", None)
+        if self.failure:
+            raise ClusterFailure(self.failure)
         while True:
             acts = self._enabled()
             have = [h for h, f in self.fifo.items() if f]
@@ -343,6 +366,17 @@ def run(plan, ch, want_log=False):
             cnt["calls"], cnt["n"] = b.calls, 0
         return orig(state)
     impl.has_computable = hc
+    # a loop inside the scheduler that never comes back to the controller loop can not be seen by the counter above:
+    # a (very generous) wall-clock alarm turns it into the same verdict instead of hanging the check
+    import signal
+    import threading
+
+    def _alarm(signum, frame):
+        raise Spin()
+    use_alarm = threading.current_thread() is threading.main_thread()
+    if use_alarm:
+        old_alarm = signal.signal(signal.SIGALRM, _alarm)
+        signal.setitimer(signal.ITIMER_REAL, WALL_SPIN_S)
     viol = []
     D = sum(len(t.definition.output_schema) for t in job.tasks.values())
     H, R = len(b.store), len(job.ext_outputs)
@@ -383,6 +417,11 @@ def run(plan, ch, want_log=False):
             viol.append(("C03", "unbounded_recommanding", (b.n_tx, b.n_fetch, D, H, R), {}))
         if b.pending:
             b.probes["finished_with_commands_unanswered"] += 1
+    except ClusterFailure as e:
+        # the run of a feasible job failed through the controller's own commands
+        if job.ext_outputs:
+            viol.append(("C01", "run_failed_requested_outputs_not_delivered", str(e)[:200], {}))
+        viol.append(("C03", "run_failed_by_own_commands", str(e)[:200], {}))
     except TaskFailed as e:
         if ginfo is not None and ginfo["expect_failure"]:
             b.probes["count_mismatch_reported_as_task_failure"] += 1
@@ -406,6 +445,10 @@ def run(plan, ch, want_log=False):
         if not own and b.shutdown_calls != 1:
             viol.append(("C03", "no_shutdown_after_error", b.shutdown_calls, {}))
     finally:
+        viol.extend(b.deferred)
+        if use_alarm:
+            signal.setitimer(signal.ITIMER_REAL, 0)
+            signal.signal(signal.SIGALRM, old_alarm)
         impl.has_computable = orig
     if ginfo is not None:
         for cls, detail in ginfo["structural"]:
